@@ -85,6 +85,7 @@ class State:
         self.conds = []
         self.status = 'run'     # run | return | raise | continue | break
         self.counter = itertools.count(1)
+        self.assume = {}        # normalised test text -> bool (scenario assumptions)
 
     def fork(self):
         s = State()
@@ -92,6 +93,7 @@ class State:
         s.events = list(self.events)
         s.conds = list(self.conds)
         s.status = self.status
+        s.assume = self.assume
         s.counter = self.counter      # shared: versions stay unique across forks
         return s
 
@@ -140,7 +142,9 @@ class Walker:
         if isinstance(e, ast.Call):
             return self.ev_call(st, e)
         if isinstance(e, ast.IfExp):
-            # value depends on a test: opaque but remember both arms for simple cases
+            t = norm(e.test)
+            if t in st.assume:
+                return self.ev(st, e.body if st.assume[t] else e.orelse)
             return st.fresh('ifexp')
         if isinstance(e, ast.Attribute):
             base = self.ev(st, e.value)
@@ -224,6 +228,11 @@ class Walker:
         self.paths += 1
         if self.paths > self.max_paths:
             raise RuntimeError('path explosion')
+        if isinstance(stmt, ast.If) and norm(stmt.test) in st.assume:
+            taken = st.assume[norm(stmt.test)]
+            st.conds.append((stmt.test, taken))
+            yield from self.walk(stmt.body if taken else stmt.orelse, st)
+            return
         if isinstance(stmt, ast.If):
             a = st.fork()
             a.conds.append((stmt.test, True))
